@@ -72,6 +72,59 @@ theorem C17.round_nonce_at (acct : String → Nat) (callers : List String) :
       congr 2
       omega
 
+/-! ### ... and these are the nonces the same calls get as transactions
+
+Executing the calls one after the other as transactions: a transaction runs with its sender's current account nonce,
+and (unless revm refuses it outright) bumps it by one, whether it succeeds or reverts. -/
+
+/-- account nonces after a transaction of `c` -/
+def bumpNonce (acct : String → Nat) (c : String) : String → Nat := fun x => if x = c then acct x + 1 else acct x
+
+/-- the nonces the calls carry when they are executed in order as transactions -/
+def seqTxNonces (acct : String → Nat) : List String → List Nat
+  | [] => []
+  | c :: cs => acct c :: seqTxNonces (bumpNonce acct c) cs
+
+theorem roundNonces_shift (acct : String → Nat) (c : String) (cs : List String) :
+    ∀ seen : List String, roundNonces (bumpNonce acct c) seen cs = roundNonces acct (c :: seen) cs := by
+  induction cs with
+  | nil => intro seen; rfl
+  | cons d ds ih =>
+    intro seen
+    simp only [roundNonces]
+    congr 1
+    · unfold bumpNonce
+      by_cases h : d = c
+      · subst h; simp [List.count_cons]; omega
+      · have h' : ¬ (c == d) = true := by simpa using fun x => h x.symm
+        simp [h, List.count_cons, h']
+    · rw [ih (d :: seen)]
+      -- the two `seen` lists are permutations of each other; `count` does not see the order
+      have : ∀ (l : List String) (s1 s2 : List String), (∀ x, s1.count x = s2.count x) →
+          roundNonces acct s1 l = roundNonces acct s2 l := by
+        intro l
+        induction l with
+        | nil => intros; rfl
+        | cons e es ihl =>
+          intro s1 s2 hc
+          simp only [roundNonces, hc e]
+          congr 1
+          exact ihl _ _ (fun x => by simp [List.count_cons, hc x])
+      exact this ds _ _ (fun x => by simp [List.count_cons]; omega)
+
+/-- **A multi-call simulation hands every call the nonce its transaction will carry** when the same calls are
+submitted in the same order (each bumping its sender's nonce): nonce-derived child addresses coincide call by call. -/
+theorem C17.multi_nonces_eq_tx_nonces (callers : List String) :
+    ∀ acct : String → Nat, roundNoncesImpl acct [] callers = seqTxNonces acct callers := by
+  intro acct
+  rw [C17.multi_nonces_are_sequential]
+  induction callers generalizing acct with
+  | nil => rfl
+  | cons c cs ih =>
+    simp only [roundNonces, seqTxNonces, List.count_nil, Nat.add_zero]
+    congr 1
+    rw [← ih (bumpNonce acct c), roundNonces_shift]
+
 /-- **An accepted multi-call read saw, call by call, the environment the transactions will see**: if the model
 accepts the recorded runs of one complete round of `ncalls` calls (none refused by revm), then every call ran at the
 height the next transaction is built at, with zero fees, and with nonce = its caller's account nonce + the number of
